@@ -2090,9 +2090,9 @@ parse_citation:
 			break;
 
 		default:
+			// Report it, but never end the host process (and lose the whole document)
 			fprintf(stderr, "Unknown token type: %d (%lu:%lu)\n", t->type, t->start, t->len);
 			token_describe(t, source);
-			exit(0);
 			break;
 	}
 
